@@ -28,7 +28,7 @@ class C02(PropertyCheck):
             c = barandom.random_content(rng, e, max_size=rng.choice([8, 16, 32, 64, 128]), cstrings=False)
             # stress: equal buckets at several addresses, names equal to strings
             if rng.random() < 0.5 and len(c.data) >= 8:
-                name = rng.choice(barandom.ASCII_STRS[:4] + barandom.ORDER_STRS[:4] + barandom.KANA_STRS[:2] + [b"L"])
+                name = rng.choice(barandom.ASCII_STRS[:4] + barandom.ORDER_STRS[:4] + barandom.KANA_STRS[:2] + barandom.SYMBOL_STRS[:4] + [b"L"])
                 for a in rng.sample(range(0, len(c.data) + 1), min(3, len(c.data) + 1)):
                     c.lab[a] = [name] if rng.random() < 0.7 else [name, b"Z"]
             for k in range(3):
